@@ -385,9 +385,14 @@ class CallMixin:
             if not isinstance(lam, ast.Lambda):
                 raise Unsupported(node, "quantifier needs a lambda")
             svals = []
+            # bound variables are named by binder NESTING DEPTH, not by a global counter: two expansions of the same clause
+            # text over the same arguments are then the identical z3 term (hash-consed), so "premise P of an invariant" and
+            # "premise P of the postcondition" need no re-proof.  Terms passed in from an enclosing scope carry smaller depths,
+            # so an inner binder can never capture them.
+            self.qdepth = getattr(self, "qdepth", 0) + 1
             for sname, a in zip(sorts.split(","), lam.args.args):
                 so = self.sort_by_name(sname.strip())
-                svals.append((a.arg, Val(so, (z3.Const(fresh_name(a.arg), so.z),))))
+                svals.append((a.arg, Val(so, (z3.Const(f"{a.arg}!q{self.qdepth}", so.z),))))
             s2 = st.copy()
             for n_, v in svals:
                 s2.env[n_] = v
@@ -404,6 +409,7 @@ class CallMixin:
                     pats = [z3.MultiPattern(*terms)] if len(terms) > 1 else terms
             finally:
                 self.spec_mode = old
+                self.qdepth -= 1
             vs = [v.z for _, v in svals]
             if q == "forall":
                 if pats:
